@@ -66,26 +66,34 @@ def is_node(c, d, now=True):
     return z3.And(d != ABSENT, d != NONE, is_dict(d), h('$alloc')[d])
 
 
-def tree_wf(c, now=True):
-    """the cache is a tree: nodes are allocated dictionaries, pairwise distinct, and none of them is a top dictionary"""
+kind = z3.Function('cache_node_kind', Obj, Int)        # ghost tags of the dictionaries that make up the caches (chosen at allocation)
+ownp = z3.Function('cache_node_provided', Obj, Obj)
+ownn = z3.Function('cache_node_name', Obj, Obj)
+K1, K2, KM, KS, T1, TM, TS = 1, 2, 3, 4, 10, 11, 12
+
+
+def mnode(c, fld, p, now=True):
     h = c.h if now else c.h0
-    p, p2, n, n2 = z3.Consts('tw_p tw_p2 tw_n tw_n2', Obj)
-    t = top(c, now)
-    tops = [t, h('_mcache')[c.a.self], h('_scache')[c.a.self]]
-    n1, n1b = node1(c, p, now), node1(c, p2, now)
-    m2, m2b = node2(c, p, n, now), node2(c, p2, n2, now)
+    return M(c, now)[h(fld)[c.a.self]][p]
+
+
+def tree_wf(c, now=True):
+    """the caches are trees of dictionaries: every node is an allocated dictionary carrying the ghost tags of its place
+    (hence nodes are pairwise distinct and none of them is a top dictionary)"""
+    h = c.h if now else c.h0
+    p, n = z3.Consts('tw_p tw_n', Obj)
+    tops = [(top(c, now), T1), (h('_mcache')[c.a.self], TM), (h('_scache')[c.a.self], TS)]
+    n1 = node1(c, p, now)
+    m2 = node2(c, p, n, now)
+    mm = mnode(c, '_mcache', p, now)
+    ss = mnode(c, '_scache', p, now)
     return [
-        ('tops-exist', z3.And(*[z3.And(x != NONE, h('$alloc')[x], is_dict(x)) for x in tops] + [z3.Distinct(*tops)])),
-        ('level-1-nodes', ForAllP([p], z3.Implies(n1 != ABSENT, z3.And(is_node(c, n1, now), *[n1 != x for x in tops])), [n1])),
+        ('tops-exist', z3.And(*[z3.And(x != NONE, h('$alloc')[x], is_dict(x), kind(x) == k) for x, k in tops])),
+        ('level-1-nodes', ForAllP([p], z3.Implies(n1 != ABSENT, z3.And(is_node(c, n1, now), kind(n1) == K1, ownp(n1) == p)), [n1])),
         ('level-2-nodes', ForAllP([p, n], z3.Implies(z3.And(n1 != ABSENT, named(n), m2 != ABSENT),
-                                                     z3.And(is_node(c, m2, now), *[m2 != x for x in tops])), [m2])),
-        ('level-1-distinct', ForAllP([p, p2], z3.Implies(z3.And(n1 != ABSENT, n1b != ABSENT, p != p2), n1 != n1b),
-                                     [z3.MultiPattern(n1, n1b)])),
-        ('level-2-distinct', ForAllP([p, n, p2, n2], z3.Implies(z3.And(
-            n1 != ABSENT, n1b != ABSENT, named(n), named(n2), m2 != ABSENT, m2b != ABSENT, z3.Or(p != p2, n != n2)), m2 != m2b),
-            [z3.MultiPattern(m2, m2b)])),
-        ('levels-disjoint', ForAllP([p, p2, n2], z3.Implies(z3.And(n1 != ABSENT, n1b != ABSENT, named(n2), m2b != ABSENT), n1 != m2b),
-                                    [z3.MultiPattern(n1, m2b)])),
+                                                     z3.And(is_node(c, m2, now), kind(m2) == K2, ownp(m2) == p, ownn(m2) == n)), [m2])),
+        ('lookupAll-nodes', ForAllP([p], z3.Implies(mm != ABSENT, z3.And(is_node(c, mm, now), kind(mm) == KM, ownp(mm) == p)), [mm])),
+        ('subscriptions-nodes', ForAllP([p], z3.Implies(ss != ABSENT, z3.And(is_node(c, ss, now), kind(ss) == KS, ownp(ss) == p)), [ss])),
     ]
 
 
@@ -128,16 +136,30 @@ def _gc_post(c):
                 z3.And(z3.Not(c.h0('$alloc')[o]), c.h('$alloc')[o], M(c)[o][k] != ABSENT),
                 z3.And(o == node1(c, p), k == n, truthy(n), z3.Not(c.h0('$alloc')[M(c)[o][k]]))), [M(c)[o][k]])),
             ('allocation-only-grows', ForAllP([o], z3.Implies(c.h0('$alloc')[o], c.h('$alloc')[o]), [c.h('$alloc')[o]])),
-            ] + [('tree:' + lbl, f) for lbl, f in tree_wf(c)] + [('cache-stays-sound', sound(c, epoch(c)))]
+            ] + [('tree:' + lbl, f) for lbl, f in tree_wf(c)] + [('cache-stays-sound', sound(c, epoch(c))), ('multi-caches-stay-sound', sound_multi(c, epoch(c)))]
 
 
 def _gc_pre(c):
-    return tree_wf(c) + [('cache-sound', sound(c, epoch(c))), ('name-is-a-str', is_name(c.a.name)),
+    return tree_wf(c) + [('cache-sound', sound(c, epoch(c))), ('multi-caches-sound', sound_multi(c, epoch(c))), ('name-is-a-str', is_name(c.a.name)),
                          ('provided-is-no-name', z3.Not(is_name(c.a.provided)))]
 
 
+def _tag_getcache(ex, st, ref, ordinal):
+    p, n = ex.args['provided'].t, ex.args['name'].t
+    if ordinal == 0:
+        st.assume(z3.And(kind(ref) == K1, ownp(ref) == p))
+    else:
+        st.assume(z3.And(kind(ref) == K2, ownp(ref) == p, ownn(ref) == n))
+
+
+def _tag_multi(k):
+    def h(ex, st, ref, ordinal):
+        st.assume(z3.And(kind(ref) == k, ownp(ref) == ex.args['provided'].t))
+    return h
+
+
 reg.add(Proc(A + 'LookupBase._getcache', [('self', OBJ), ('provided', OBJ), ('name', OBJ)], source='adapter.py:LookupBase._getcache',
-             result=DICT, locals={'cache': DICT, 'c': DICT, '$objdict': True}, modifies=['$dict', '$alloc'],
+             result=DICT, locals={'cache': DICT, 'c': DICT, '$objdict': True, '$on_alloc': _tag_getcache}, modifies=['$dict', '$alloc'],
              requires=_gc_pre, ensures=_gc_post))
 
 
@@ -151,8 +173,12 @@ def all_nodes_fresh(c, alloc_before):
     p, n = z3.Consts('nf_p nf_n', Obj)
     n1 = node1(c, p)
     m2 = node2(c, p, n)
+    mm = mnode(c, '_mcache', p)
+    ss = mnode(c, '_scache', p)
     return z3.And(ForAllP([p], z3.Implies(n1 != ABSENT, z3.Not(alloc_before[n1])), [n1]),
-                  ForAllP([p, n], z3.Implies(z3.And(n1 != ABSENT, named(n), m2 != ABSENT), z3.Not(alloc_before[m2])), [m2]))
+                  ForAllP([p, n], z3.Implies(z3.And(n1 != ABSENT, named(n), m2 != ABSENT), z3.Not(alloc_before[m2])), [m2]),
+                  ForAllP([p], z3.Implies(mm != ABSENT, z3.Not(alloc_before[mm])), [mm]),
+                  ForAllP([p], z3.Implies(ss != ABSENT, z3.Not(alloc_before[ss])), [ss]))
 
 
 def _uncached_post(which):
@@ -212,7 +238,7 @@ def _lookup_post(c):
     hit = z3.And(had_node, M(c, False)[node0][key] != ABSENT)
     cached = M(c, False)[node0][key]
     e0, e1 = epoch(c, False), epoch(c)
-    return [('cache-stays-sound-whatever-the-call-out-did', sound(c, e1)),
+    return [('cache-stays-sound-whatever-the-call-out-did', sound(c, e1)), ('multi-caches-stay-sound', sound_multi(c, e1)),
             ] + [('tree:' + lbl, f) for lbl, f in tree_wf(c)] + [
             ('a-cached-answer-is-returned-without-searching', z3.Implies(hit, z3.And(
                 c.res == z3.If(cached == NONE, c.a.default, cached), e1 == e0))),
@@ -222,7 +248,7 @@ def _lookup_post(c):
 
 
 def lookup_pre(c):
-    return tree_wf(c) + [('cache-sound', sound(c, epoch(c))), ('provided-is-no-name', z3.Not(is_name(c.a.provided))),
+    return tree_wf(c) + [('cache-sound', sound(c, epoch(c))), ('multi-caches-sound', sound_multi(c, epoch(c))), ('provided-is-no-name', z3.Not(is_name(c.a.provided))),
                          ('required-specifications-are-neither-names-nor-tuples', z3.Implies(
                              L(c.a.required) == 1, z3.And(z3.Not(is_name(c.a.required[0])), z3.Not(is_seq(c.a.required[0])))))]
 
@@ -235,3 +261,142 @@ reg.add(Proc(A + 'LookupBase.lookup', [('self', OBJ), ('required', SEQO), ('prov
              raises={'ValueError': (lambda c: z3.Not(is_name(c.a.name)),
                                     lambda c: [('nothing-touched', z3.And(M(c) == M(c, False), epoch(c) == epoch(c, False)))])},
              ensures=_lookup_post))
+
+
+
+# ------------------------------------------------------------------ lookupAll / subscriptions (one-level caches keyed by the required tuple)
+def _multi_post(fld, ans):
+    def post(c):
+        p = c.a.provided
+        key = box_seq(c.a.required)
+        n0 = mnode(c, fld, p, False)
+        hit = z3.And(n0 != ABSENT, M(c, False)[n0][key] != ABSENT)
+        e0, e1 = epoch(c, False), epoch(c)
+        return [('caches-stay-sound-whatever-the-call-out-did', z3.And(sound(c, e1), sound_multi(c, e1)))] + \
+            [('tree:' + lbl, f) for lbl, f in tree_wf(c)] + [
+            ('a-cached-answer-is-returned-without-searching', z3.Implies(hit, z3.And(c.res == M(c, False)[n0][key], e1 == e0))),
+            ('otherwise-the-answer-of-the-uncached-search', z3.Implies(z3.And(z3.Not(hit), e1 == e0), c.res == ans(e0, p, key))),
+            ('epoch-only-advances', e1 >= e0)]
+    return post
+
+
+def multi_pre(c):
+    return tree_wf(c) + [('cache-sound', sound(c, epoch(c))), ('multi-caches-sound', sound_multi(c, epoch(c)))]
+
+
+reg.add(Proc(A + 'LookupBase.lookupAll', [('self', OBJ), ('required', SEQO), ('provided', OBJ)], source='adapter.py:LookupBase.lookupAll',
+             result=OBJ, globals={'_not_in_mapping': V(OBJ, NOTIN)}, calls={'self._uncached_lookupAll': A + 'virtual._uncached_lookupAll'},
+             locals={'cache': DICT, '$nomerge': True, '$on_alloc': _tag_multi(KM), '$dict_may_be_none': False},
+             modifies=['$dict', '$alloc', '$epoch'], requires=multi_pre, ensures=_multi_post('_mcache', UA)))
+reg.add(Proc(A + 'LookupBase.subscriptions', [('self', OBJ), ('required', SEQO), ('provided', OBJ)], source='adapter.py:LookupBase.subscriptions',
+             result=OBJ, globals={'_not_in_mapping': V(OBJ, NOTIN)}, calls={'self._uncached_subscriptions': A + 'virtual._uncached_subscriptions'},
+             locals={'cache': DICT, '$nomerge': True, '$on_alloc': _tag_multi(KS)},
+             modifies=['$dict', '$alloc', '$epoch'], requires=multi_pre, ensures=_multi_post('_scache', US)))
+
+
+# ------------------------------------------------------------------ single-required entry points (C08: they agree with lookup())
+PB = z3.Function('providedBy_of', Obj, Obj)               # providedBy(object): C01
+CALL = z3.Function('factory_result', Obj, Obj, Obj)       # factory(object)
+CALL_RAISES = z3.Function('factory_raises', Obj, Obj, B)
+SUPER = classconst('super')
+reg.fields['__self__'] = OBJ
+_q = z3.Const('pb_o', Obj)
+reg.axiom('specifications-are-neither-names-nor-tuples', z3.ForAll([_q], z3.And(z3.Not(is_name(PB(_q))), z3.Not(is_seq(PB(_q))), PB(_q) != ABSENT),
+                                                                   patterns=[PB(_q)]))
+reg.assumptions.append('providedBy(object) is a pure query here (C01; descriptors that re-enter are C11\'s subject); factories do not mutate '
+                       'the registry they are looked up in (C11 covers the re-entrant case bounded)')
+
+
+def lookup_value(c, p, n, key, now=False):
+    """(hit?, the factory/value lookup((r,), p, n) yields before None -> default) on the heap at entry"""
+    node0 = z3.If(truthy(n), node2(c, p, n, now), node1(c, p, now))
+    had = z3.And(node1(c, p, now) != ABSENT, z3.Or(z3.Not(truthy(n)), node2(c, p, n, now) != ABSENT))
+    hit = z3.And(had, M(c, now)[node0][key] != ABSENT)
+    return hit, z3.If(hit, M(c, now)[node0][key], U(epoch(c, now), p, n, key))
+
+
+def single_pre(c, key):
+    return tree_wf(c) + [('cache-sound', sound(c, epoch(c))), ('multi-caches-sound', sound_multi(c, epoch(c))),
+                         ('provided-is-no-name', z3.Not(is_name(c.a.provided))),
+                         ('the-required-specification-is-neither-a-name-nor-a-tuple', z3.And(z3.Not(is_name(key)), z3.Not(is_seq(key))))]
+
+
+def invariants_kept(c):
+    e1 = epoch(c)
+    return [('caches-stay-sound', z3.And(sound(c, e1), sound_multi(c, e1)))] + [('tree:' + lbl, f) for lbl, f in tree_wf(c)] + \
+        [('epoch-only-advances', e1 >= epoch(c, False))]
+
+
+def _lookup1_post(c):
+    hit, v = lookup_value(c, c.a.provided, c.a.name, c.a.required)
+    same = epoch(c) == epoch(c, False)
+    return invariants_kept(c) + [
+        ('equals-lookup-of-the-1-tuple', z3.Implies(z3.Or(hit, same), c.res == z3.If(v == NONE, c.a.default, v)))]
+
+
+_value_error = {'ValueError': (lambda c: z3.Not(is_name(c.a.name)),
+                               lambda c: [('nothing-touched', z3.And(M(c) == M(c, False), epoch(c) == epoch(c, False)))])}
+
+
+def _call_lookup_1tuple(ex, node, st):
+    """self.lookup((required,), provided, name[, default])"""
+    out = []
+    for s, vs in ex.ev_list(node.args, st):
+        args = {'self': ex.args['self'], 'required': ex.coerce(vs[0], SEQO, s), 'provided': vs[1], 'name': vs[2],
+                'default': vs[3] if len(vs) > 3 else VNONE}
+        out.extend(ex.apply_contract(node, s, reg.procs[A + 'LookupBase.lookup'], args))
+    return out
+
+
+reg.add(Proc(A + 'LookupBase.lookup1', [('self', OBJ), ('required', OBJ), ('provided', OBJ), ('name', OBJ), ('default', OBJ)],
+             source='adapter.py:LookupBase.lookup1', result=OBJ, globals={'_not_in_mapping': V(OBJ, NOTIN)},
+             calls={'self._getcache': A + 'LookupBase._getcache', 'self.lookup': _call_lookup_1tuple},
+             locals={'cache': DICT, '$nomerge': True}, modifies=['$dict', '$alloc', '$epoch'],
+             requires=lambda c: single_pre(c, c.a.required), raises=_value_error, ensures=_lookup1_post))
+
+
+def _ext_factory(ex, node, st, vals):
+    f, a = vals[0].t, box(vals[1])
+    bad = st.clone()
+    bad.assume(CALL_RAISES(f, a))
+    ex.raise_(bad, 'OtherError')
+    st.assume(z3.Not(CALL_RAISES(f, a)))
+    return [(st, vobj(CALL(f, a)))]
+
+
+def _hook_spec(c):
+    ob = c.a.object
+    req = PB(ob)
+    hit, f = lookup_value(c, c.a.provided, c.a.name, req)
+    arg = z3.If(subtype(typeof(ob), SUPER), c.h0('__self__')[ob], ob)
+    return hit, f, arg
+
+
+def _hook_post(c):
+    hit, f, arg = _hook_spec(c)
+    same = epoch(c) == epoch(c, False)
+    r = CALL(f, arg)
+    return invariants_kept(c) + [
+        ('calls-the-factory-lookup-finds-on-providedBy-of-the-object-with-the-underlying-object', z3.Implies(
+            z3.Or(hit, same), c.res == z3.If(z3.Or(f == NONE, r == NONE), c.a.default, r)))]
+
+
+def _hook_raises(c):
+    hit, f, arg = _hook_spec(c)
+    return z3.And(is_name(c.a.name), z3.Implies(z3.Or(hit, epoch(c) == epoch(c, False)), z3.And(f != NONE, CALL_RAISES(f, arg))))
+
+
+reg.add(Proc('declarations.py:providedBy', [('ob', OBJ)], result=OBJ, trusted=True, pure_fn=lambda c: PB(c.a.ob), note='C01'))
+HOOK_CALLS = {'self._getcache': A + 'LookupBase._getcache', 'self.lookup': _call_lookup_1tuple, 'providedBy': 'declarations.py:providedBy'}
+reg.add(Proc(A + 'LookupBase.adapter_hook', [('self', OBJ), ('provided', OBJ), ('object', OBJ), ('name', OBJ), ('default', OBJ)],
+             source='adapter.py:LookupBase.adapter_hook', result=OBJ, globals={'_not_in_mapping': V(OBJ, NOTIN)},
+             calls=HOOK_CALLS, opaque_calls={'factory': _ext_factory},
+             locals={'cache': DICT, '$nomerge': True}, modifies=['$dict', '$alloc', '$epoch'],
+             requires=lambda c: single_pre(c, PB(c.a.object)),
+             raises=_value_error, may_raise=['OtherError'], ensures=_hook_post))
+
+reg.add(Proc(A + 'LookupBase.queryAdapter', [('self', OBJ), ('object', OBJ), ('provided', OBJ), ('name', OBJ), ('default', OBJ)],
+             source='adapter.py:LookupBase.queryAdapter', result=OBJ,
+             calls={'self.adapter_hook': A + 'LookupBase.adapter_hook'}, modifies=['$dict', '$alloc', '$epoch'],
+             requires=lambda c: single_pre(c, PB(c.a.object)),
+             raises=_value_error, may_raise=['OtherError'], ensures=_hook_post))
